@@ -48,8 +48,12 @@ def build(message, toks):
     nf = int(next(toks))
     pending = []
     for _ in range(nf):
-        name = unhex(next(toks)).decode("utf-8")            # message.py keeps names as Python text
+        rawname = unhex(next(toks))
         tc = int(next(toks), 16); n = int(next(toks))
+        if tc == message.B_POINTER_TYPE:          # a non-flattenable field of the content: message.py has no such kind (its name need not even be text)
+            for _ in range(n): next(toks)
+            continue
+        name = rawname.decode("utf-8")            # message.py keeps names as Python text
         if tc == message.B_MESSAGE_TYPE:
             if late:
                 # the sub-Messages are put empty and filled afterwards, through the very objects the parent holds
@@ -155,13 +159,14 @@ HIST = 0x48495354     # 'HIST': start the resend history (field n = number of fr
 ACK1 = 0x41434b31     # 'ACK1': the previous frame was received, go on
 
 
-def echo(message):
+def echo(message, connect_port=None):
     import threading
     try:
         import message_transceiver_thread as mtt
-        t = mtt.MessageTransceiverThread(None, 0, "127.0.0.1")
+        if connect_port: t = mtt.MessageTransceiverThread("127.0.0.1", connect_port)      # connecting: the transceiver's socket is non-blocking
+        else: t = mtt.MessageTransceiverThread(None, 0, "127.0.0.1")
         t.start()
-        port = t.GetPort()
+        port = connect_port or t.GetPort()
     except Exception as ex:
         print("SKIP %s: %s" % (type(ex).__name__, ex)); sys.stdout.flush(); return
     print("PORT %d" % port); sys.stdout.flush()
@@ -195,7 +200,8 @@ def echo(message):
                 t.SendOutgoingMessage(ev); n += 1
     try: t.Destroy()
     except Exception: pass
-    print("ECHOED %d" % n); sys.stdout.flush()
+    try: print("ECHOED %d" % n); sys.stdout.flush()
+    except Exception: pass
 
 
 if __name__ == "__main__":
@@ -203,3 +209,4 @@ if __name__ == "__main__":
     import message
     if sys.argv[1] == "serve": serve(message)
     elif sys.argv[1] == "echo": echo(message)
+    elif sys.argv[1] == "echoconnect": echo(message, int(sys.argv[3]))
